@@ -27,6 +27,26 @@ impl Clearable for SharedSink {
 }
 
 pub fn codec_of(name: &str) -> Option<Codec> {
+    // "name:level" selects an explicit compression level (written to the header for bzip2 / xz / zstandard)
+    if let Some((base, lv)) = name.split_once(':') {
+        let lv: u8 = lv.parse().ok()?;
+        return Some(match base {
+            "deflate" => {
+                use miniz_oxide::deflate::CompressionLevel as L;
+                Codec::Deflate(apache_avro::DeflateSettings::new(match lv {
+                    0 => L::NoCompression,
+                    1 => L::BestSpeed,
+                    9 => L::BestCompression,
+                    10 => L::UberCompression,
+                    _ => L::DefaultLevel,
+                }))
+            }
+            "bzip2" => Codec::Bzip2(apache_avro::Bzip2Settings::new(lv.clamp(1, 9))),
+            "xz" => Codec::Xz(apache_avro::XzSettings::new(lv.min(9))),
+            "zstandard" => Codec::Zstandard(apache_avro::ZstandardSettings::new(lv.min(22))),
+            _ => return None,
+        });
+    }
     Some(match name {
         "null" => Codec::Null,
         "deflate" => Codec::Deflate(Default::default()),
